@@ -64,6 +64,14 @@ class Parser:
         if not tok:
             raise Exception('syntax error: stream ended early')
         t = tok.type
+        if t == 'AT':
+            # reference to a BDD node: `@` followed by
+            # the integer that represents the node
+            tok = self.lexer.lexer.token()
+            if not tok or tok.type != 'NUMBER':
+                raise Exception(
+                    'syntax error: expected number after "@"')
+            t = tok.type
         if t == 'NAME':
             r = bdd.var(tok.value)
             need -= 1
